@@ -23,6 +23,7 @@ DOC = {
         "of label lists."
     ),
     "rules": {
+        "C06-R8": "retrieve_clps writes and reads every clp at the position of its label in the full label list (relation source and target included), never at a position taken from the reduced list (shared with C03-R6)",
         "C06-R1": "combine_megacomplex_matrices: result column = position of the label in the merged list; operand column = <that operand's labels>.index(label), guarded by membership; zeros initialised; labels and matrices are swapped under the same condition",
         "C06-R2": "damped-oscillation and PFID: label list, each kernel and the complex split use the same blocked layout (real/cos columns 0..n-1, imag/sin columns n..2n-1)",
         "C06-R3": "in all finalize_data / retrieve_* functions clp, matrix and spectra variables are read with .sel(<label list>), never positionally",
@@ -302,6 +303,13 @@ def r5(ctx) -> None:
     ctx.ob("C06-R5", "align_matrices/block-placement", ok, am, st[0] if st else am.node, "block i occupies its own rows and the columns given by its label mask")
 
 
+def r8(ctx) -> None:
+    """Reduced clps are expanded by label position (shared with C03-R6)."""
+    from glint.rules import c03
+
+    c03.r6(ctx, rule="C06-R8")
+
+
 def check(ctx) -> None:
     for g in check.groups:
         g(ctx)
@@ -319,4 +327,4 @@ def r7(ctx) -> None:
     c04.r3(ctx, rule="C06-R7")
 
 
-check.groups = [r1, r2, r3, r5, r6, r7]
+check.groups = [r1, r2, r3, r5, r6, r7, r8]
